@@ -21,7 +21,7 @@ from .. import build, core
 from ..run import run as sh, pmap, Scratch
 
 LEVEL = "exploration"
-_VLOCK = threading.Lock()
+_VLOCK = threading.RLock()
 
 
 def _violation(ctx, key, what, files=None):
@@ -748,10 +748,15 @@ def run_wave(ctx, st, dm, fl, client_bin, picks, mode, rng, n_bin, where, sc):
 
     reps, xres, ws = vc.run_wave(dm.vmd_dir, [m.blob for m in pys], mode=mode, delays=delays, timeout=180.0,
                                  extras=[mk(m) for m in bins])
-    st.waves += 1
     trouble = []
     ok = True
     daemon_alive = dm.alive()
+    with _VLOCK:                                    # lanes share `st`
+        st.waves += 1
+        return _account_wave(ctx, st, ws, pys, reps, bins, xres, all_ids, where, daemon_alive, trouble, ok)
+
+
+def _account_wave(ctx, st, ws, pys, reps, bins, xres, all_ids, where, daemon_alive, trouble, ok):
     for m, r in zip(pys, reps):
         if r.exc or r.timeout:
             trouble.append("py %s: exc=%s timeout=%s" % (m.mid, r.exc, r.timeout))
@@ -767,7 +772,7 @@ def run_wave(ctx, st, dm, fl, client_bin, picks, mode, rng, n_bin, where, sc):
     for m, r in zip(bins, xres):
         if r is None or r.timeout:
             trouble.append("bin %s: no result / watchdog" % m.mid)
-            if daemon_alive:
+            if daemon_alive or r is None:
                 continue
         st.sessions += 1
         st.sessions_bin += 1
@@ -820,14 +825,20 @@ def run_round(ctx, st, fl, client_bin, sc, rno, picks, mode, yield_on, n_bin, la
                 troubles.extend(trouble)
                 if conc >= 2:
                     rk = (multiset, wmode, kind)
-                    if rk not in st.round_keys:
+                    with _VLOCK:
+                        fresh = rk not in st.round_keys
                         st.round_keys.add(rk)
+                    if fresh:
                         if len(st.rounds) < 6:
                             st.rounds.append({"modules": list(multiset), "release": wmode, "yield": kind,
                                               "status_max_executing": conc, "clients": len(order), "real_binaries": n_bin})
                 if not dm.alive():
                     died = "rc=%s" % dm.returncode()
                     break
+            stuck = None
+            if troubles and not died and dm.alive() and vc.proc_idle(dm.pid, 2.0):
+                # Not a slow machine: the daemon consumes no CPU and all its threads sleep, yet a complete request is unanswered.
+                stuck = vc.status(ddir, 10.0).active_clients()
         finally:
             dm.stop()
         # TSan reports of this daemon instance
@@ -836,24 +847,32 @@ def run_round(ctx, st, fl, client_bin, sc, rno, picks, mode, yield_on, n_bin, la
             if f.startswith("tsan."):
                 log += open(os.path.join(ddir, f), errors="replace").read()
         reports = parse_tsan(log)
-        st.tsan[kind] = st.tsan.get(kind, 0) + len(reports)
         seen = set()
+        with _VLOCK:
+            st.tsan[kind] = st.tsan.get(kind, 0) + len(reports)
+            for key in set(k for k, _ in reports):
+                st.tsan_distinct.setdefault(key, {"plain": 0, "yield": 0})[kind] += 1
         for key, text in reports:
             if key in seen:
                 continue
             seen.add(key)
-            st.tsan_distinct.setdefault(key, {"plain": 0, "yield": 0})[kind] += 1
             _violation(ctx, key, "ThreadSanitizer report in nano_vmd during round %d (%s; modules %s)\n%s"
                           % (rno, kind, ",".join(multiset), text[:6000]), {"tsan_report.txt": text})
         if died:
             tail = open(dm.log, "rb").read()[-2000:].decode("utf-8", "replace")
-            _violation(ctx, "daemon-died|" + re.sub(r"\d+", "N", died), "nano_vmd went away while serving well-formed modules in round %d (%s): %s\n%s"
+            _violation(ctx, "daemon-died|" + died, "nano_vmd went away while serving well-formed modules in round %d (%s): %s\n%s"
                           % (rno, kind, died, tail), {"vmd.stderr": tail})
             return
         if not troubles:
             return
+        if stuck is not None:
+            _violation(ctx, "session-stuck|daemon-idle", "round %d (%s): %s -- while the daemon was idle (no CPU time over 2 s, all threads "
+                       "sleeping) and reported active_clients=%s: these well-formed requests will never be answered"
+                       % (rno, kind, "; ".join(troubles[:4]), stuck))
+            return
         # client-side watchdog / connect trouble: not a verdict; re-run the round once
-        st.reruns += 1
+        with _VLOCK:
+            st.reruns += 1
         for f in os.listdir(ddir):
             if f.startswith("tsan."):
                 os.unlink(os.path.join(ddir, f))
